@@ -1,7 +1,67 @@
-(* C08 (growing) *)
-From GF Require Import Base.Bytes Model.PutPath Proofs.BytesFacts.
-Theorem C08_digest_mismatch_is_bad : forall md5 d body, d <> md5 body -> digest_bad md5 (Some d) body = true.
-Proof.
-  intros md5 d body H. unfold digest_bad. apply beq_neq in H. rewrite H. reflexivity.
-Qed.
-Print Assumptions C08_digest_mismatch_is_bad.
+(* C08 — Corrupt or short uploads are rejected and never change stored state.
+   Model: Model/PutPath.v (createObject / putMultipartUploadPart validation order, metadataHeaders
+   size, Content-MD5 decoding, hashingReader digest test, ReadAll declared-length test, body-reader
+   failure) over Model/Mem.v and Model/Uploader.v.  md5/hex are universally quantified. *)
+From GF Require Import Base.Bytes Base.Lit Base.Int64 Base.SortedMap Model.ParseInt Model.Mem Model.Handlers
+  Model.Uploader Model.PutPath Proofs.PutPathProofs.
+Open Scope Z_scope.
+
+(* whatever is wrong with an object upload, a rejection leaves the stored state exactly as it was *)
+Theorem C08_rejected_frame : forall md5 c integrity ml s b k h r tracked s' e,
+  get_bucket s b <> None ->
+  put_request md5 c integrity ml s b k h r tracked = (s', inl e) -> s' = s.
+Proof. exact put_rejected_frame. Qed.
+Print Assumptions C08_rejected_frame.
+
+(* a body reader that fails after k bytes is a rejection — for EVERY k and every body *)
+Theorem C08_reader_failure_rejected : forall md5 c integrity ml s b k h data kf tracked,
+  exists e, snd (put_request md5 c integrity ml s b k h {| br_data := data; br_fail_after := Some kf |} tracked) = inl e.
+Proof. exact put_reader_failure_rejected. Qed.
+Print Assumptions C08_reader_failure_rejected.
+
+(* integrity check on, well-formed request with digest d: accepted EXACTLY when d is the MD5 of
+   the bytes received and the declared length is their count; then exactly those bytes are stored
+   with the metadata sent *)
+Theorem C08_accept_iff : forall md5 c ml s b k h data tracked size d bk,
+  get_bucket s b = Some bk ->
+  negb ((0 <? ml) && (ml <? meta_size h)) = true ->
+  (exists cl, hget (B "Content-Length") h = Some cl /\ cl <> [] /\ parse_int64 cl = Some size) -> 0 <= size ->
+  blen k <= key_limit ->
+  expected_digest true h = inr (Some d) ->
+  let res := put_request md5 c true ml s b k h {| br_data := data; br_fail_after := None |} tracked in
+  ((exists body vid, snd res = inr (body, vid)) <-> (d = md5 data /\ size = blen data)) /\
+  (forall body vid, snd res = inr (body, vid) ->
+     body = data /\ exists v sv, get_object (fst res) b k = OObj v sv /\ vd_body v = data /\ vd_meta v = tracked).
+Proof. exact put_accept_iff. Qed.
+Print Assumptions C08_accept_iff.
+
+(* integrity check off: the digest header is ignored *)
+Theorem C08_integrity_off : forall h, expected_digest false h = inr None.
+Proof. exact put_integrity_off_ignores_digest. Qed.
+Print Assumptions C08_integrity_off.
+
+(* part uploads: a rejection leaves every pending upload untouched; a failing reader is rejected;
+   with a digest, acceptance implies digest and length are right *)
+Theorem C08_part_rejected_frame : forall md5 hex integrity u b k id pn h r u' e,
+  part_request md5 hex integrity u b k id pn h r = (u', inl e) -> u' = u.
+Proof. exact part_rejected_frame. Qed.
+Print Assumptions C08_part_rejected_frame.
+
+Theorem C08_part_reader_failure_rejected : forall md5 hex integrity u b k id pn h data kf,
+  exists e, snd (part_request md5 hex integrity u b k id pn h {| br_data := data; br_fail_after := Some kf |}) = inl e.
+Proof. exact part_reader_failure_rejected. Qed.
+Print Assumptions C08_part_reader_failure_rejected.
+
+Theorem C08_part_accept_only_if : forall md5 hex u b k id pn h data d et u',
+  expected_digest true h = inr (Some d) ->
+  part_request md5 hex true u b k id pn h {| br_data := data; br_fail_after := None |} = (u', inr et) ->
+  d = md5 data /\ parse_int64 (hval (B "Content-Length") h) = Some (blen data).
+Proof. exact part_accept_only_if. Qed.
+Print Assumptions C08_part_accept_only_if.
+
+(* non-vacuity: base64 of 16 zero bytes decodes; a 5-byte digest and a malformed one are refused *)
+Example C08_ex_b64 : option_map (@length N) (b64_decode (B "AAAAAAAAAAAAAAAAAAAAAA==")) = Some 16%nat. Proof. reflexivity. Qed.
+Example C08_ex_digest :
+  (expected_digest true [(B "Content-Md5", B "MTIzNDU=")], expected_digest true [(B "Content-Md5", B "!!!")], expected_digest true [(B "Content-Md5", [])])
+  = (inl PInvalidDigest, inl PInvalidDigest, inl PInvalidDigest).
+Proof. vm_compute. reflexivity. Qed.
